@@ -24,6 +24,8 @@ def order_text(rules, depth=0):
             line += "  %order_reverse"
         if r["glob"]:
             line += "  %global"
+        if r.get("scope"):
+            line += "  %scope=" + r["scope"]
         out.append("    " * depth + line)
         out += order_text(r["kids"], depth + 1)
     return out
